@@ -191,6 +191,16 @@ def judgeLine (cap : Nat) (line : String) : String :=
     match opOf o, two t with
     | some op, some (A, B) => judgeOp 1000000 op A B rhs
     | _, _ => "DIFF parse bad-case-line"
+  | "cc" :: o :: t =>
+    -- the same call made while other goroutines run the operations on unrelated operands: the
+    -- answer (any answer that differed from the sequential one, else that one) is judged as usual
+    match opOf o, two t with
+    | some op, some (A, B) =>
+      let v := judgeOp cap op A B rhs
+      match v.splitOn " " with
+      | k :: c :: why => if why.isEmpty then s!"{k} conc-{c}" else s!"{k} conc-{c} {" ".intercalate why}"
+      | _ => v
+    | _, _ => "DIFF parse bad-case-line"
   | "ie" :: t =>
     match two t with
     | some (A, B) => judgeIe A B rhs
